@@ -125,7 +125,9 @@ func raceNewSchema() error {
 		CreateSchemaHandler:       omniv21.CreateSchemaHandler,
 		CreateSchemaHandlerParams: &omniv21.CreateParams{CustomFileFormats: formats},
 	}
-	hdr := func(f string) string { return `"parser_settings":{"version":"omni.2.1","file_format_type":"` + f + `"}` }
+	hdr := func(f string) string {
+		return `"parser_settings":{"version":"omni.2.1","file_format_type":"` + f + `"}`
+	}
 	good := `{` + hdr("csv2") + `,"file_declaration":{"delimiter":",","records":[{"columns":[{"name":"a"}]}]},"transform_declarations":{"FINAL_OUTPUT":{"object":{"a":{"xpath":"a"}}}}}`
 	bad := `{` + hdr("json") + `,"transform_declarations":{"FINAL_OUTPUT":{"xpath":"/*[","object":{"a":{"xpath":"a"}}}}}`
 	custom := c01CustomSchemaText("pool")
@@ -156,7 +158,7 @@ func raceNewSchema() error {
 		wg.Add(1)
 		go func(g int) {
 			defer wg.Done()
-			for r := 0; r < 150; r++ {
+			for r := 0; r < 40; r++ {
 				if got, _ := one(fmt.Sprintf("schema-%d", g)); got != solo[g] {
 					select {
 					case errs <- fmt.Errorf("NewSchema(%q, ...) through a shared Extension, %d goroutines at once, differs from the same calls alone:\n%s\n-- alone:\n%s", fmt.Sprintf("schema-%d", g), G, got, solo[g]):
